@@ -156,6 +156,8 @@ def check_cell(ctx, spec, only_decoder=None):
     if n > 63:
         return
     base_cell = cat.cell_of(spec)
+    if spec["family"] in ("cyclic", "cyclic_std"):
+        base_cell["k_gt_12"] = k > 12  # minimum_distance() switches from enumeration to an upper bound (recorded finding)
     rows = gf2.rows_from_matrix(enc(torch.eye(k, dtype=torch.float32)).detach().numpy())
     if gf2.rank(rows, n) != k:
         ctx.cls("skipped_not_injective")
